@@ -57,7 +57,9 @@ pub fn split_user_filename(xname: &str) -> Result<(u8,String),DYNERR> {
         return Ok((0,xname.to_string()));
     } else {
         if let Ok(user) = u8::from_str(parts[0]) {
-            if user<types::USER_END {
+            // only the canonical decimal spelling names a user area: `01:X` or `+1:X` would not be found
+            // by `get_file` and a second file `1:X` would be created next to an existing one
+            if user<types::USER_END && parts.len()==2 && parts[0]==user.to_string() {
                 return Ok((user,parts[1].to_string()));
             } else {
                 log::error!("invalid user number");
